@@ -10,6 +10,8 @@ require (
 	verifcommon v0.0.0
 )
 
+require gitlab.com/c0b/go-ordered-json v0.0.0-20201030195603-febf46534d5a // indirect
+
 replace github.com/enbility/ship-go => /repo
 
 replace verifcommon => ../common
